@@ -18,7 +18,7 @@ ALLOWED_AXIOMS = {"propext", "Classical.choice", "Quot.sound"}
 
 # property → streams run by the harness, translator items the theorems depend on, extra Lean modules
 PROPS = {
-    "C01": dict(streams=["c01"], items=["keycodes", "layoutkeys", "charclasses", "rankcmp", "okkhor", "okkhorregex", "panicsites"]),
+    "C01": dict(streams=["c01", "c12", "c13"], items=["keycodes", "layoutkeys", "charclasses", "rankcmp", "okkhor", "okkhorregex", "panicsites"]),
     "C02": dict(streams=["c01"], items=["keycodes", "layoutkeys", "charclasses", "rankcmp", "okkhor", "okkhorregex"]),
     "C05": dict(streams=["c05"], items=["keycodes", "charclasses", "rankcmp", "okkhor", "okkhorregex"]),
     "C06": dict(streams=["c06", "c01"], items=["keycodes", "layoutkeys", "charclasses", "rankcmp", "okkhor", "okkhorregex"]),
@@ -68,19 +68,23 @@ def strip_lean_comments(src):
 
 # further theorem modules owned by a property: (file under RitiModel/, namespace, lake module)
 REAL = (os.path.join("Props", "RealEnv.lean"), "Real", "RitiModel.Props.RealEnv")
+# the model's row-by-row edit distance IS the Levenshtein distance (= cost of the cheapest edit script); rank of a completion
+EDIT = (os.path.join("Props", "EditDistance.lean"), "EditDistance", "RitiModel.Props.EditDistance")
+# the modelling step "slice::sort = insertion sort" justified: a stable sort is unique; sort_unstable agrees with it up to ties
+SORT = (os.path.join("Props", "SortSpec.lean"), "SortSpec", "RitiModel.Props.SortSpec")
 EXTRA = {
     "C06": [(os.path.join("Props", "C06Phonetic.lean"), "C06P", "RitiModel.Props.C06Phonetic"),
             (os.path.join("Props", "C06Fixed.lean"), "C06F", "RitiModel.Props.C06Fixed")],
     # the dictionary look-up (regex generator, reader, matcher) inside the model
-    "C07": [(os.path.join("Props", "Regex.lean"), "Regex", "RitiModel.Props.Regex")],
+    "C07": [(os.path.join("Props", "Regex.lean"), "Regex", "RitiModel.Props.Regex"), EDIT, SORT],
     "C08": [(os.path.join("Props", "Regex.lean"), "Regex", "RitiModel.Props.Regex"),
             (os.path.join("Props", "RegexTotal.lean"), "Regex", "RitiModel.Props.RegexTotal"),
             (os.path.join("Props", "RegexFast.lean"), "Regex", "RitiModel.Props.RegexFast"), REAL],
     "C16": [(os.path.join("Props", "Bijoy.lean"), "Bijoy", "RitiModel.Props.Bijoy"), REAL],
     # the parameters instantiated with the real transliterator / dictionary look-up / encoder (provisos discharged to the data files)
-    "C03": [REAL], "C17": [REAL], "C18": [REAL], "C19": [REAL],
+    "C03": [REAL], "C17": [REAL], "C18": [REAL, SORT], "C19": [REAL],
     # the fixed-method dictionary pattern ^clean[class]{0,n}$: the model's direct characterisation is its language
-    "C15": [(os.path.join("Props", "FixedRegex.lean"), "FixedRegex", "RitiModel.Props.FixedRegex")],
+    "C15": [(os.path.join("Props", "FixedRegex.lean"), "FixedRegex", "RitiModel.Props.FixedRegex"), EDIT, SORT],
     # the JSON fragment of the per-user files (reader, writer, UTF-8 layer, crash points of the save)
     "C09": [(os.path.join("Props", "Json.lean"), "Json", "RitiModel.Props.Json")],
     "C10": [(os.path.join("Props", "Json.lean"), "Json", "RitiModel.Props.Json")],
